@@ -218,7 +218,8 @@ let run_sockopts (parts : string list) : string =
                          | _ -> failwith "sockopts: net") in
   let o = { sko_reuseport = fld f "rp" = "1"; sko_rcvbuf = ni "rcv"; sko_sndbuf = ni "snd"; sko_mark = ni "mark";
             sko_dev = (match fld f "dev" with "-" -> [] | d -> bytes_of_str d); sko_utimeout = ni "ut" } in
-  let a = sko_control o net in
+  let role = fld f "role" in
+  let a = if role = "rlisten" || role = "rupstream" then sko_router_control o net else sko_control o net in
   let on = (function Some v -> string_of_int (int_of_n v) | None -> "-") in
   Printf.sprintf "ctl=ok nw=%s mark=%s dev=%s rp=%d rcv=%s snd=%s ut=%s" nw
     (match a.ska_mark with Some v -> string_of_int (int_of_n v) | None -> "0")
